@@ -134,3 +134,30 @@ pub proof fn theorem_minimize_language(d: CompiledDfa, r: CompiledDfa, cls: ClsF
 pub open spec fn min_of(d: CompiledDfa, r: CompiledDfa) -> bool {
     d_wf(d) && minimized(d, r) && r.states@.len() <= d.states@.len() && r.terminal_ids == d.terminal_ids && r.lookaheads == d.lookaheads && r.patterns == d.patterns
 }
+
+/// shape of what minimize returns: what the scanning side calls well formed (targets in range, one end-state entry per state), and every
+/// accepting entry is the entry of a state of the automaton that was minimized
+pub proof fn lemma_minimized_shape(d: CompiledDfa, r: CompiledDfa)
+    requires d_wf(d), minimized(d, r)
+    ensures
+        r.states@.len() == r.end_states@.len(), 1 <= r.states@.len() <= u32::MAX,
+        forall|s: int, i: int| 0 <= s < r.states@.len() && 0 <= i < r.states@[s].transitions@.len() ==> (#[trigger] r.states@[s].transitions@[i]).1.0 < r.states@.len(),
+        forall|g: int| 0 <= g < r.end_states@.len() && (#[trigger] r.end_states@[g]).0 ==> exists|s: int| 0 <= s < d.states@.len() && #[trigger] d.end_states@[s] == r.end_states@[g],
+{
+    let p = choose|p: PartV| #[trigger] part_ok(p, d.states@.len() as int) && stable(d, p) && acc_homog(d, p) && quotient_ok(d, p, r) && all_nonempty(p);
+    assert(in_grp(p, 0, 0));
+    assert forall|s: int, i: int| 0 <= s < r.states@.len() && 0 <= i < r.states@[s].transitions@.len() implies (#[trigger] r.states@[s].transitions@[i]).1.0 < r.states@.len() by {
+        let e = r.states@[s].transitions@[i];
+        let h = e.1.0 as int;
+        assert(StateSetID(h as u32) == e.1);
+        assert(r.states@[s].transitions@.contains((e.0, StateSetID(h as u32))));
+        let m = choose|m: int| #[trigger] in_grp(p, s, m) && sig(d, p, m, e.0, h);
+        let t = choose|t: int| #[trigger] in_grp(p, h, t) && 0 <= m < d.states@.len() && d.states@[m].transitions@.contains((e.0, StateSetID(t as u32)));
+    }
+    assert forall|g: int| 0 <= g < r.end_states@.len() && (#[trigger] r.end_states@[g]).0 implies exists|s: int| 0 <= s < d.states@.len() && #[trigger] d.end_states@[s] == r.end_states@[g] by {
+        assert(q_end_ok(d, p, r, g));
+        let s = choose|s: int| #[trigger] in_grp(p, g, s) && d.end_states@[s] == r.end_states@[g];
+        assert(p[g].contains(StateID(s as u32)));
+        assert(StateID(s as u32).0 < d.states@.len());
+    }
+}
